@@ -385,7 +385,11 @@ func (g *g17) lineCleanConn(c int) {
 }
 
 func (g *g17) lineShutdown() {
-	g.emit("shutdown")
+	if g.r.Intn(2) == 0 {
+		g.emit("shutdown expired")
+	} else {
+		g.emit("shutdown")
+	}
 	g.shut = true
 	for _, o := range g.all() {
 		if o.registered {
